@@ -85,3 +85,16 @@ def _unused_f9_deleted_page_survives() -> bool:
         (lab.zdir / "b.zo").unlink()
         lab.reindex()
         return any(d["zid"] == "240101#BB" for d in lab.index_notes())
+
+
+def f11_mentioned_zid() -> bool:
+    import logging
+
+    logging.disable(logging.CRITICAL)
+    from checks import c10
+
+    pages = dict(c10.DESTS)
+    pages.update(c10.MENTION)
+    # pick the note 240105#m2 (sorted ZIDs: 200101#d1..d5, 240105#m1, m2, m3)
+    err, info = c10.check_move(pages, 6, "notes.zo", None)
+    return bool(err) and info.get("zid") == "240105#m2"
